@@ -118,6 +118,35 @@ def codec_stream(ctx):
     return res
 
 
+def unescape_stream(ctx):
+    """C15: fastrace-macro's unescape_format_string (its source text compiled into the harness
+    by harness/core/build.rs) against the Gallina model `unescape` and the `scan` specification"""
+    res = StreamResult("unescape")
+    os.makedirs(ctx.scratch, exist_ok=True)
+    bindir = ctx.harness("core")
+    drv = ctx.driver()
+    n = ctx.scale(300, 20000)
+    files, cmds = [], []
+    for s in range(8):
+        f = os.path.join(ctx.scratch, "unescape-%d.txt" % s)
+        cmds.append("%s/vharness unescape --seed %d --n %d --out %s" % (bindir, ctx.seed * 1000 + s, n, f)); files.append(f)
+    for rc, out in vc.parallel(cmds):
+        if rc != 0:
+            raise BuildError("harness unescape run failed: " + out[-2000:])
+    outs = vc.parallel(["%s codec %s" % (drv, f) for f in files])
+    for (rc, out), f in zip(outs, files):
+        if rc != 0:
+            raise BuildError("model driver failed on %s: %s" % (f, out[-2000:]))
+        parse_driver_output(res, out, f)
+        collect_stats(res, f, nsamples=0)
+    with open(files[0], errors="replace") as fh:
+        for i, l in enumerate(fh):
+            if i in (5, 200, 3290):
+                res.samples.append(l.strip()[:300])
+    keep_failing_files(ctx, res)
+    return res
+
+
 def keep_failing_files(ctx, res):
     """copy the case lines of failures/disagreements next to the replay so it stays replayable"""
     keep = {}
